@@ -31,15 +31,19 @@ ProxyCfgs == {
 
 VARIABLES row, done
 Init == /\ row \in [start : Starts, t1 : Targets, t2 : Targets \cup {NoProxy}, s1 : Statuses, s2 : SecondStatuses, px : ProxyCfgs,
-                    body : BodyKinds, len : {7, 9000}]
+                    body : BodyKinds, len : {7, 9000}, rel : BOOLEAN]
         /\ row.t1 # row.start
+        /\ (row.rel => row.t2 = NoProxy)      \* the second redirect is a relative reference: it belongs to the hop that sent it
         /\ (row.t2 # NoProxy => row.t2 # row.t1)
         /\ done = FALSE
 Next == ~done /\ done' = TRUE /\ UNCHANGED row
 Spec == Init /\ [][Next]_<<row, done>>
 
+RelRef == [kind |-> "relpath", sch |-> "http", host |-> "-", labels |-> <<>>, hkind |-> "domain", port |-> 0,
+           segs |-> <<"..", "rel">>, q |-> "r=1", frag |-> FALSE, user |-> "-"]
 nodes == <<[url |-> row.start, status |-> row.s1, loc |-> Abs(row.t1)]>>
-         \o (IF row.t2 = NoProxy THEN <<>> ELSE <<[url |-> row.t1, status |-> row.s2, loc |-> Abs(row.t2)]>>)
+         \o (IF row.t2 # NoProxy THEN <<[url |-> row.t1, status |-> row.s2, loc |-> Abs(row.t2)]>>
+            ELSE IF row.rel THEN <<[url |-> row.t1, status |-> row.s2, loc |-> RelRef]>> ELSE <<>>)
 
 Emit == done => PrintT(<<"REPLAY", ToJson([kind |-> "loop", seed |-> 11,
    req |-> [method |-> "POST", url |-> row.start, body |-> [kind |-> row.body, len |-> row.len, writes |-> <<3, 0, 2000, 1>>, chunked |-> TRUE],
@@ -48,7 +52,9 @@ Emit == done => PrintT(<<"REPLAY", ToJson([kind |-> "loop", seed |-> 11,
    settings |-> [follow |-> TRUE, maxRedir |-> 5, proxy |-> row.px],
    nodes |-> nodes, connect |-> [status |-> 200, valid |-> TRUE],
    \* half of the rows prepare the request once and send it twice: the second send() is the same request again
-   resend |-> (row.len = 7),
+   resend |-> (row.len = 7 \/ (row.len = 9000 /\ row.s1 = 307)),
+   \* ... and some of those lose the first connection while the (large) body goes out: the second send() must be whole
+   wfail |-> (IF row.len = 9000 /\ row.s1 = 307 THEN 5000 ELSE 0),
    secrets |-> <<"SECRET-TOKEN-1", "kept-value">>])>>)
 \* (hosts: the Host field of a hop whose URL names credentials must still be host[:port] only - guard G08_host)
 =============================================================================
